@@ -6,9 +6,10 @@ WT=/tmp/wt-seedtest-$PID-$$
 git -C /repo worktree add --detach $WT HEAD >/dev/null 2>&1 || exit 2
 cd $WT && { git apply $SEED/patch.diff 2>/dev/null || git apply -C1 $SEED/patch.diff 2>/dev/null || patch -p1 -F3 -s < $SEED/patch.diff; } || { echo "PATCH-DOES-NOT-APPLY"; git -C /repo worktree remove --force $WT; exit 2; }
 env -u GOSUMDB -u GOTOOLCHAIN GOFLAGS= GOPROXY=off go build ./... || { echo "DOES-NOT-BUILD"; git -C /repo worktree remove --force $WT; exit 2; }
-cd /verif && VERIF_REPO=$WT timeout 3000 bin/check $PID --tier $TIER > /tmp/seedtest-$PID-$(basename $SEED).log 2>&1
+cd /verif && VERIF_WORK=/verif/.work/seedtest-$PID-$$ VERIF_REPO=$WT timeout 3000 bin/check $PID --tier $TIER > /tmp/seedtest-$PID-$(basename $SEED).log 2>&1
 rc=$?
 echo "seed=$(basename $SEED) pid=$PID tier=$TIER rc=$rc"
 grep -E "^VIOLATION|^  class|MACHINERY" /tmp/seedtest-$PID-$(basename $SEED).log | cut -c1-260 | head -6
 git -C /repo worktree remove --force $WT
+rm -rf /verif/.work/seedtest-$PID-$$
 exit $rc
